@@ -1,1 +1,122 @@
-(* C05 ProofsHouse — placeholder, filled below *)
+(* C05 — Householder: algebra of the reflector I - beta v v^T (all n), and the
+   scalars (beta, nu_0) computed by householder.Run. *)
+From Coq Require Import Reals List Lia Lra Bool.
+From ADV Require Import Base.Num C05.Model C05.Spec C05.ProofsBase.
+Import ListNotations.
+Open Scope R_scope.
+
+(* ---------- the reflector, for every vector v and every n ---------- *)
+Lemma refl_symmetric beta v i j : refl beta v i j = refl beta v j i.
+Proof. unfold refl. rewrite delta_sym. lra. Qed.
+
+(* P * P = I as soon as beta = 0 or beta * (v^T v) = 2 *)
+Lemma refl_involutive (n : nat) (beta : R) (v : list R) :
+  beta = 0 \/ beta * dot n v v = 2 ->
+  forall i j, (i < n)%nat -> (j < n)%nat ->
+  sum_n (fun k => refl beta v i k * refl beta v k j) n = delta i j.
+Proof.
+  intros Hb i j Hi Hj. unfold refl.
+  rewrite (sum_n_ext _ (fun k => delta i k * (delta k j - beta * V v k * V v j)
+                                 - beta * V v i * (delta j k * V v k)
+                                 + beta * beta * V v i * V v j * (V v k * V v k))).
+  2:{ intros k Hk. rewrite (delta_sym k j). ring. }
+  rewrite sum_n_plus, sum_n_minus.
+  rewrite (sum_n_delta_l (fun k => delta k j - beta * V v k * V v j)) by auto.
+  rewrite sum_n_scal. rewrite (sum_n_delta_l (fun k => V v k)) by auto.
+  rewrite sum_n_scal. fold (dot n v v).
+  destruct Hb as [-> | Hb]; [ring|].
+  transitivity (delta i j - 2 * beta * V v i * V v j + beta * V v i * V v j * (beta * dot n v v)); [ring|].
+  rewrite Hb. ring.
+Qed.
+
+(* orthogonality = symmetric + involutive: P^T P = I *)
+Lemma refl_orthogonal (n : nat) (beta : R) (v : list R) :
+  beta = 0 \/ beta * dot n v v = 2 ->
+  forall i j, (i < n)%nat -> (j < n)%nat ->
+  sum_n (fun k => refl beta v k i * refl beta v k j) n = delta i j.
+Proof.
+  intros Hb i j Hi Hj.
+  rewrite (sum_n_ext _ (fun k => refl beta v i k * refl beta v k j)).
+  - apply refl_involutive; auto.
+  - intros k _. rewrite (refl_symmetric beta v k i). reflexivity.
+Qed.
+
+(* ---------- the scalars of householder.Run ---------- *)
+Definition h_mu (x0 sigma : R) : R := sqrt (x0 * x0 + sigma).
+Definition h_nu0 (x0 sigma : R) : R :=
+  if Rleb x0 0 then x0 - h_mu x0 sigma else - (sigma / (x0 + h_mu x0 sigma)).
+Definition h_beta (x0 sigma : R) : R :=
+  let nu0 := h_nu0 x0 sigma in
+  let b := nu0 / (nu0 * nu0 + sigma) * nu0 in b + b.
+
+Lemma house_as_coded (x0 : R) (xt : list R) :
+  let sigma := sum_n (fun k => nth k xt 0 * nth k xt 0) (length xt) in
+  house XR (x0 :: xt) =
+  if Reqb sigma 0 then (0, 1 :: xt)
+  else (h_beta x0 sigma, map (fun y => y / h_nu0 x0 sigma) (h_nu0 x0 sigma :: xt)).
+Proof.
+  intro sigma. unfold house.
+  change (fold_left (fun s xi => add (nx XR) s (mul (nx XR) xi xi)) xt (zero (nx XR)))
+    with (fold_left (fun s xi => s + xi * xi) xt 0).
+  rewrite fold_sq_sum. rewrite Rplus_0_l. fold sigma.
+  change (eqb (nx XR)) with Reqb. change (zero (nx XR)) with 0.
+  destruct (Reqb sigma 0); reflexivity.
+Qed.
+
+Lemma h_mu_gt (x0 sigma : R) : 0 < sigma -> Rabs x0 < h_mu x0 sigma.
+Proof.
+  intro Hs. unfold h_mu. rewrite <- sqrt_Rsqr_abs. apply sqrt_lt_1.
+  - apply Rle_0_sqr.
+  - unfold Rsqr. nra.
+  - unfold Rsqr. lra.
+Qed.
+
+Lemma h_nu0_eq (x0 sigma : R) : 0 < sigma -> h_nu0 x0 sigma = x0 - h_mu x0 sigma /\ h_nu0 x0 sigma < 0.
+Proof.
+  intro Hs. pose proof (h_mu_gt x0 sigma Hs) as Hmu.
+  assert (Hsq : h_mu x0 sigma * h_mu x0 sigma = x0 * x0 + sigma).
+  { unfold h_mu. apply sqrt_sqrt. nra. }
+  assert (Habs : - h_mu x0 sigma < x0 < h_mu x0 sigma).
+  { unfold Rabs in Hmu. destruct (Rcase_abs x0); lra. }
+  unfold h_nu0. destruct (Rleb x0 0) eqn:E.
+  - split; [reflexivity|lra].
+  - assert (Hp : x0 + h_mu x0 sigma <> 0) by lra.
+    assert (Hn : - (sigma / (x0 + h_mu x0 sigma)) = x0 - h_mu x0 sigma).
+    { replace sigma with ((h_mu x0 sigma - x0) * (h_mu x0 sigma + x0)) at 1 by nra. field. lra. }
+    rewrite Hn. split; [reflexivity|lra].
+Qed.
+
+(* beta = 2 / (nu^T nu) with nu = (1, x_1/nu0, ...) : nu^T nu = 1 + sigma/nu0^2,
+   and beta * (nu^T x) = nu0, which makes (I - beta nu nu^T) x = (|x|, 0, ..., 0) *)
+Lemma house_scalars (x0 sigma : R) :
+  0 < sigma ->
+  let nu0 := h_nu0 x0 sigma in let beta := h_beta x0 sigma in
+  nu0 <> 0 /\
+  beta * (1 + sigma / (nu0 * nu0)) = 2 /\
+  beta * (x0 + sigma / nu0) = nu0 /\
+  x0 - beta * (x0 + sigma / nu0) = h_mu x0 sigma.
+Proof.
+  intros Hs nu0 beta. destruct (h_nu0_eq x0 sigma Hs) as (Heq & Hneg). fold nu0 in Heq, Hneg.
+  assert (Hsq : h_mu x0 sigma * h_mu x0 sigma = x0 * x0 + sigma).
+  { unfold h_mu. apply sqrt_sqrt. nra. }
+  assert (Hnz : nu0 <> 0) by lra.
+  assert (Hden : nu0 * nu0 + sigma <> 0) by nra.
+  assert (Hb : beta = 2 * nu0 * nu0 / (nu0 * nu0 + sigma)).
+  { unfold beta, h_beta. fold nu0. field. exact Hden. }
+  split; [exact Hnz|]. split; [|split].
+  - rewrite Hb. field. split; auto.
+  - rewrite Hb. 
+    assert (E1 : nu0 * nu0 + sigma = - 2 * h_mu x0 sigma * nu0) by (rewrite Heq; nra).
+    assert (E2 : x0 * nu0 + sigma = - h_mu x0 sigma * nu0) by (rewrite Heq; nra).
+    assert (Hmu : h_mu x0 sigma <> 0) by (pose proof (h_mu_gt x0 sigma Hs); pose proof (Rabs_pos x0); lra).
+    replace (x0 + sigma / nu0) with ((x0 * nu0 + sigma) / nu0) by (field; exact Hnz).
+    rewrite E1, E2. field. split; auto.
+  - assert (E : beta * (x0 + sigma / nu0) = nu0).
+    { rewrite Hb.
+      assert (E1 : nu0 * nu0 + sigma = - 2 * h_mu x0 sigma * nu0) by (rewrite Heq; nra).
+      assert (E2 : x0 * nu0 + sigma = - h_mu x0 sigma * nu0) by (rewrite Heq; nra).
+      assert (Hmu : h_mu x0 sigma <> 0) by (pose proof (h_mu_gt x0 sigma Hs); pose proof (Rabs_pos x0); lra).
+      replace (x0 + sigma / nu0) with ((x0 * nu0 + sigma) / nu0) by (field; exact Hnz).
+      rewrite E1, E2. field. split; auto. }
+    rewrite E. lra.
+Qed.
